@@ -36,7 +36,7 @@ for sid in sorted(os.listdir(os.path.join(V, "seeded")), key=lambda x: (x.split(
     else:
         undecided.append(f"* {sid} - {head}: the check of {m_['property']} passes; {msg or 'checks of other properties report it (see the last column)'}")
 out = ["## 11. Seeded changes written by independent sub-agents, and which rules catch them", "",
-       "Each change was written by a fresh sub-agent that saw only the text of one property and a scratch worktree of /repo (nothing from /verif), in eleven rounds "
+       "Each change was written by a fresh sub-agent that saw only the text of one property and a scratch worktree of /repo (nothing from /verif), in twelve rounds "
        "(each later round was told which ideas the earlier rounds had used and asked for different ones; `tools/prep_round.py` prepares the worktrees). Every change kept here was confirmed by `tools/verify_seed.py` in the scratch "
        "worktree: the patch applies to /repo's HEAD of that time, the 30 baseline tests still pass, and the demonstration fails with the change and passes without it on at least one of "
        "the interpreters 3.7-3.10 (3.12 for the JSON-only ones). `tools/seeded.py` applies each patch to a scratch copy (never to /repo) and runs the quick check of the "
